@@ -1,6 +1,7 @@
 import FluentVerif.Driver.Parse
 import FluentVerif.Proto.Equal
 import FluentVerif.Proto.EventTime
+import FluentVerif.Driver.Codec
 /-! `fvdriver`: reads harness lines on stdin, evaluates the *same definitions the theorems are
 about* on each input, and prints, per line, whether the model agrees with what the real code did
 (`CORR`) and whether the property predicate holds of what the real code did (`PROP`). -/
@@ -31,7 +32,7 @@ def opEQ (args obs : List String) : Outcome :=
     -- property oracle, written from the statement: same entries with the same multiplicities
     let spec := l1.length == l2.length && l1.all (fun x => l1.count x == l2.count x)
     { corr := if m == go then .ok else .bad s!"model={m} go={go}",
-      prop := if spec == go then .ok else .bad s!"multiset-equal={spec} Equal={go}",
+      prop := if spec == go then .ok else .bad s!"C20 multiset-equal={spec} Equal={go}",
       branch := s!"eq.{l1.length}.{m}" }
   | _, _ => { corr := .bad "bad-line" }
 
@@ -47,7 +48,7 @@ def opET (args obs : List String) : Outcome :=
       -- oracle from the statement: 8 bytes, big-endian seconds then nanoseconds
       let okp := go.length == 8 && beVal (go.take 4) == (sec % 4294967296).toNat && beVal (go.drop 4) == nsec
       { corr := if m == go then .ok else .bad s!"model={toHex m} go={toHex go}",
-        prop := if decide t.InDomain then (if okp then .ok else .bad "payload is not BE sec ‖ BE nsec") else .na,
+        prop := if decide t.InDomain then (if okp then .ok else .bad "C19 payload is not BE sec ‖ BE nsec") else .na,
         branch := if decide t.InDomain then "et.in" else "et.out" }
     | _, _, _, _ => { corr := .bad "bad-line" }
   | _, _ => { corr := .bad "bad-line" }
@@ -65,7 +66,7 @@ def opETD (args obs : List String) : Outcome :=
         | some t => if beVal (p.drop 4) < 1000000000 then encodeET t == p else true
         | none => true
       { corr := if ms == gs then .ok else .bad s!"model=[{ms}] go=[{gs}]",
-        prop := if !lenOk then .bad "length rule" else if !reenc then .bad "re-encode" else .ok,
+        prop := if !lenOk then .bad "C19 length rule" else if !reenc then .bad "C19 re-encode" else .ok,
         branch := s!"etd.{p.length == 8}" }
     | none => { corr := .bad "bad-line" }
   | _ => { corr := .bad "bad-line" }
@@ -75,6 +76,13 @@ def dispatch (op : String) (args obs : List String) : Outcome :=
   | "EQ" => opEQ args obs
   | "ET" => opET args obs
   | "ETD" => opETD args obs
+  | "DEC" =>
+    match opDEC args obs with
+    | some d =>
+      { corr := match d.corr with | none => .ok | some w => .bad w,
+        prop := if d.fails.isEmpty then .ok else .bad (" ; ".intercalate d.fails),
+        branch := d.branch }
+    | none => { corr := .bad "bad-line" }
   | _ => { corr := .bad s!"unknown-op {op}" }
 
 structure Stats where
